@@ -87,7 +87,7 @@ fn string_programs() -> Vec<String> {
         }
     }
     // one method whose code is far longer than any plausible internal block size
-    for n in [40usize, 130] {
+    for n in [40usize, 130, 600] {
         let body: String = (0..n).map(|i| format!("print(\"row ~ of ~\\n\", {}, {})", i, n)).collect::<Vec<_>>().join("; ");
         v.push(body.clone());
         v.push(format!("function long(a) -> begin {} end; long(1)", body));
